@@ -196,7 +196,12 @@ def feed(w: World, stream: bytes, cuts: tuple, st: Stats, case, expect_cache: di
         end = bounds_[i + 1]
         if gap and i:
             w.loop.jump(gap)
-        proto.data_received(stream[bounds_[i]:end])
+        try:
+            proto.data_received(stream[bounds_[i]:end])
+        except Exception as e:  # noqa: BLE001 - the receive path must never raise, whatever the bytes
+            st.violation(f"protocol seam: data_received raised {type(e).__name__}", {**case, "cuts": list(cuts)},
+                         {"after_byte": end}, str(e)[:100], f"stream={stream[:400].hex()}")
+            return False
         st.transitions += 1
         exp = expect_cache.get(end)
         if exp is None:
